@@ -64,6 +64,8 @@ type Scenario struct {
 	// the registry's continuation: "" = the `last` parameter, else an opaque cursor under this key
 	CursorKey  string `json:"cursorkey"`
 	CursorSalt string `json:"cursorsalt"`
+	// entries the registry holds but does not show (pages can be empty although a link follows)
+	Hidden []string `json:"hidden"`
 	// Repository.Referrers around the two paths (op "wrap"; Kind R)
 	State    string `json:"state"`    // capability before the call: "U" unknown, "S" supported ("" too), "N" unsupported
 	NoAPI    bool   `json:"noapi"`    // the registry has no referrers API (404)
@@ -229,6 +231,7 @@ func execute(sc *Scenario) (reg *fakereg.Registry, pages [][]fakereg.Item, logAt
 	reg = fakereg.New(host)
 	reg.NoReferrersAPI = sc.NoAPI
 	reg.CursorKey, reg.CursorSalt = sc.CursorKey, sc.CursorSalt
+	reg.Hidden = hiddenSet(sc.Hidden)
 	if sc.Index {
 		reg.Manifests[sc.Repo+"@"+subject.Algorithm().String()+"-"+subject.Encoded()] = fakereg.Manifest{MediaType: ocispec.MediaTypeImageIndex, Content: indexDoc(sc.Items, 0)}
 	}
@@ -301,6 +304,39 @@ func execute(sc *Scenario) (reg *fakereg.Registry, pages [][]fakereg.Item, logAt
 		panic("kind " + sc.Kind)
 	}
 	return
+}
+
+func hiddenSet(names []string) map[string]bool {
+	m := map[string]bool{}
+	for _, n := range names {
+		m[n] = true
+	}
+	return m
+}
+
+func visible(items []fakereg.Item, hidden []string) []fakereg.Item {
+	if len(hidden) == 0 {
+		return items
+	}
+	h := hiddenSet(hidden)
+	var out []fakereg.Item
+	for _, it := range items {
+		if !h[it.Name] {
+			out = append(out, it)
+		}
+	}
+	return out
+}
+
+func namesTok(ss []string) string {
+	if len(ss) == 0 {
+		return "_"
+	}
+	p := make([]string, len(ss))
+	for i, s := range ss {
+		p[i] = common.Hex(s)
+	}
+	return strings.Join(p, ",")
 }
 
 func flat(pages [][]fakereg.Item) []fakereg.Item {
@@ -442,6 +478,7 @@ func listCase(sc *Scenario) {
 	} else {
 		expected = fakereg.After(sc.Items, sc.Last)
 	}
+	expected = visible(expected, sc.Hidden)
 	got := flat(pages)
 	// what disturbs the listing, in request order
 	disturbed := -1 // index of the first exchange that cannot be completed normally
@@ -472,7 +509,7 @@ func listCase(sc *Scenario) {
 		// everything up to and including that page, nothing more, no error
 		k := 0
 		for _, x := range reg.Log[:cut+1] {
-			k += len(filterAT(sc, x.Unfilt))
+			k += len(filterAT(sc, visible(x.Unfilt, sc.Hidden)))
 		}
 		expected = expected[:k]
 		disturbed = -1
@@ -586,6 +623,9 @@ func listCase(sc *Scenario) {
 				run.Count("link_further_values")
 			}
 		}
+		if x.Status == 200 && x.JSONOK && x.HasLink && len(x.Page) == 0 && x.Kind != 'R' {
+			run.Count("list_empty_page_with_link")
+		}
 		if x.Status == 200 && x.JSONOK && (x.Dec.LeadWS > 0 || x.Dec.TrailDoc || (x.Dec.NullBody != 0 && len(x.Page) == 0)) {
 			run.Count("json_shape_variant")
 		}
@@ -606,7 +646,7 @@ func listCase(sc *Scenario) {
 		if i > 2 && !run.Rand.Chance(1, 3) {
 			continue
 		}
-		regPageCase(sc.Kind, sc.Items, reg.Cap, sc.CursorKey, sc.CursorSalt, x)
+		regPageCase(sc.Kind, sc.Items, reg.Cap, sc.CursorKey, sc.CursorSalt, sc.Hidden, x)
 	}
 }
 
@@ -621,11 +661,12 @@ type RegPage struct {
 	Dec        fakereg.Decision `json:"dec"`
 	CursorKey  string           `json:"cursorkey"`
 	CursorSalt string           `json:"cursorsalt"`
+	Hidden     []string         `json:"hidden"`
 }
 
 // regPageCase compares one answer of the fake registry with the registry model (S line) and
 // judges it against the conditions of a legal registry, independently of the model.
-func regPageCase(kind string, items []fakereg.Item, cap int, ck, salt string, x *fakereg.Exchange) {
+func regPageCase(kind string, items []fakereg.Item, cap int, ck, salt string, hidden []string, x *fakereg.Exchange) {
 	sid := run.NewID()
 	d := x.Dec
 	flt := "0"
@@ -636,8 +677,8 @@ func regPageCase(kind string, items []fakereg.Item, cap int, ck, salt string, x 
 	for _, raw := range d.RawPairs {
 		extra = append(extra, valuesKVs(fakereg.ParseQueryLenient(raw))...)
 	}
-	in := fmt.Sprintf("S %s %s %d %s %s %d %s %s %s %s %s %s", kind, itemsTok(items), cap, common.Hex(x.Path), kvsTok(valuesKVs(x.Query)),
-		d.M, kvsTok(extra), flt, common.Hex(d.FHdr), common.Hex(d.FAnn), common.Hex(ck), common.Hex(salt))
+	in := fmt.Sprintf("S %s %s %d %s %s %d %s %s %s %s %s %s %s", kind, itemsTok(items), cap, common.Hex(x.Path), kvsTok(valuesKVs(x.Query)),
+		d.M, kvsTok(extra), flt, common.Hex(d.FHdr), common.Hex(d.FAnn), common.Hex(ck), common.Hex(salt), namesTok(hidden))
 	more, lq := 0, "_"
 	if x.More {
 		more, lq = 1, obsQuery(canonKVs(x.TQuery))
@@ -646,7 +687,7 @@ func regPageCase(kind string, items []fakereg.Item, cap int, ck, salt string, x 
 	run.Count("registry_page")
 
 	// legality of the answer (ground truth: the item list and the request)
-	rep := RegPage{Op: "regpage", Kind: kind, Items: items, Cap: cap, Path: x.Path, Query: valuesKVs(x.Query), CursorKey: ck, CursorSalt: salt,
+	rep := RegPage{Op: "regpage", Kind: kind, Items: items, Cap: cap, Path: x.Path, Query: valuesKVs(x.Query), CursorKey: ck, CursorSalt: salt, Hidden: hidden,
 		Dec: fakereg.Decision{M: d.M, Extra: extra, Filter: d.Filter, FHdr: d.FHdr, FAnn: d.FAnn}}
 	bad := func(msg string) {
 		run.OracleFail(sid, "fake-registry-illegal", fmt.Sprintf("fake registry, request %s?%s: %s", x.Path, x.Query.Encode(), msg), rep)
@@ -671,7 +712,7 @@ func regPageCase(kind string, items []fakereg.Item, cap int, ck, salt string, x 
 	case len(u) > lim:
 		bad(fmt.Sprintf("page of %d items exceeds min(cap, n) = %d", len(u), lim))
 	case len(u) == 0 && len(rest) > 0:
-		bad("empty page although items remain")
+		bad("empty page window although items remain")
 	case x.More != (len(u) < len(rest)):
 		bad(fmt.Sprintf("link present = %v, items remaining = %d", x.More, len(rest)-len(u)))
 	}
@@ -689,6 +730,16 @@ func regPageCase(kind string, items []fakereg.Item, cap int, ck, salt string, x 
 			bad(fmt.Sprintf("link cursor %q is not the last item of the page %s", last, showNames(u)))
 		}
 	}
+	if h := hiddenSet(hidden); len(h) > 0 {
+		for _, it := range x.Page {
+			if h[it.Name] {
+				bad("a hidden entry is shown: " + showNames(x.Page))
+			}
+		}
+	}
+	if sub := visible(u, hidden); !(kind == "R" && x.Query.Get("artifactType") != "") && !sameItems(x.Page, sub) {
+		bad(fmt.Sprintf("page %s is not the shown part %s of its window", showNames(x.Page), showNames(sub)))
+	}
 	at := x.Query.Get("artifactType")
 	for _, it := range x.Page {
 		if kind == "R" && at != "" && (d.Filter || fakereg.FilterApplied(d.FHdr, "artifactType") || fakereg.FilterApplied(d.FAnn, "artifactType")) && it.ArtifactType != at {
@@ -705,6 +756,7 @@ func regPageReplay(rp *RegPage) {
 	}
 	reg.Decide = func(*fakereg.Exchange) fakereg.Decision { return rp.Dec }
 	reg.CursorKey, reg.CursorSalt = rp.CursorKey, rp.CursorSalt
+	reg.Hidden = hiddenSet(rp.Hidden)
 	switch rp.Kind {
 	case "K":
 		reg.Repos = rp.Items
@@ -729,7 +781,7 @@ func regPageReplay(rp *RegPage) {
 	}
 	resp.Body.Close()
 	if reg.Log[0].Status == 200 {
-		regPageCase(rp.Kind, rp.Items, reg.Cap, rp.CursorKey, rp.CursorSalt, reg.Log[0])
+		regPageCase(rp.Kind, rp.Items, reg.Cap, rp.CursorKey, rp.CursorSalt, rp.Hidden, reg.Log[0])
 	}
 }
 
@@ -902,6 +954,17 @@ func genScenario(r *common.Rand, maxItems int) *Scenario {
 			sc.Last = common.Pick(r, []string{"a b", "x&y=z", "ü", "%41", "a/b?c", "<a>", "+", "#"})
 		default:
 			sc.Last = genName(r, sc.Kind)
+		}
+	}
+	// entries the registry does not show: page windows of hidden entries are empty pages with a link
+	if len(sc.Items) > 0 && r.Chance(1, 5) {
+		for _, it := range sc.Items {
+			if r.Chance(1, 3) {
+				sc.Hidden = append(sc.Hidden, it.Name)
+			}
+		}
+		if len(sc.Hidden) > 0 {
+			run.Count("hidden_entries")
 		}
 	}
 	// the registry's continuation: mostly `last`, else an opaque cursor (the link carries no `last`)
@@ -1893,7 +1956,7 @@ func coverageFloors() {
 		return n
 	}
 	floors := map[string]int{
-		"cursor_opaque": 100, "link_raw_pairs": 50, "link_other_path": 50, "link_further_values": 100, "link_rel_first_stream": 5,
+		"cursor_opaque": 100, "hidden_entries": 100, "list_empty_page_with_link": 20, "link_raw_pairs": 50, "link_other_path": 50, "link_further_values": 100, "link_rel_first_stream": 5,
 		"list_link_missing_midway": 5, "json_shape_variant": 100, "registry_page": 1000, "exhaustive": 200,
 		"link_variant_0": 100, "link_variant_1": 100, "link_variant_2": 100, "link_variant_3": 100, "link_variant_4": 100,
 		"list_T_": 1000, "list_K_": 500, "list_R_": 1000, "list_T_ErrCallback": 5, "list_R_ErrDecode": 5, "list_K_ErrLink": 3,
